@@ -422,6 +422,17 @@ def fsCmd (st : DState) (args : List String) : DState × String :=
       let n : Fs.Node := ⟨p, parent, key, isdir == "1", chain, size, slots⟩
       ({ st with fs := some (v, { s with nodes := s.nodes ++ [n], disk := s.disk ++ [n.dent] }, t ++ [⟨p, isdir == "1", size⟩]) }, "ok")
     | _, _, _, _, _, _, _ => (st, "bad-op")
+  | ["op", "removetree", p] =>
+    match st.fs, parseNatList p with
+    | some (v, s, t), some p =>
+      let (s', r) := Fs.removetree v s p
+      -- the reference filesystem makes the same primitive calls
+      let ops := match Fs.resolve s.nodes p with
+        | some loc => if loc.isDir then Fs.expandTree (s.nodes.length + 1) s.nodes p loc else []
+        | none => []
+      let t' := ops.foldl (fun t op => (Fs.specStep t op).1) t
+      ({ st with fs := some (v, s', t') }, showRes r ++ " spec=" ++ showRes r)
+    | _, _ => (st, "bad-op")
   | "op" :: rest =>
     match st.fs, parseOp rest with
     | some (v, s, t), some op =>
